@@ -1692,7 +1692,7 @@ def fs_read_to_string(e, args, fr, m):
 
 
 # ------------------------------------------------------------------------------------------------ symbolic file names
-NAME_ALPHABET = ['.', 't', 'T', 's', 'S', 'o', 'O', 'l', 'L', 'x', ' ', 'É', 'é']
+NAME_ALPHABET = ['.', 't', 'T', 's', 'S', 'o', 'O', 'l', 'L', 'x', ' ', 'É', 'é', '日', '𝄞']
 LOWER = {'T': 't', 'S': 's', 'O': 'o', 'L': 'l', 'É': 'é'}
 
 
@@ -1750,6 +1750,141 @@ class NameStr(Str):
 
     def render(self, model):
         return ''.join(NAME_ALPHABET[model.eval(c, model_completion=True).as_long()] for c in self.chars)
+
+    # ---- byte-level view (UTF-8): widths per character, length, boundaries
+    def widths(self):
+        out = []
+        for c in self.chars:
+            w = z3.BitVecVal(1, 64)
+            for i, ch in enumerate(NAME_ALPHABET):
+                n = len(ch.encode('utf-8'))
+                if n != 1:
+                    w = z3.If(c == i, z3.BitVecVal(n, 64), w)
+            out.append(w)
+        return out
+
+    @property
+    def byte_len(self):
+        ws = self.widths()
+        return z3.simplify(z3.Sum(*ws)) if len(ws) > 1 else (ws[0] if ws else z3.BitVecVal(0, 64))
+
+    def boundaries(self):
+        """byte offset of the start of character k, k = 0..n (n = the end)"""
+        out, acc = [z3.BitVecVal(0, 64)], z3.BitVecVal(0, 64)
+        for w in self.widths():
+            acc = acc + w
+            out.append(z3.simplify(acc))
+        return out
+
+    def eq_ignore_ascii_case(self, text):
+        if len(text) != len(self.chars):
+            return False
+        fold = lambda ch: [x for x in NAME_ALPHABET if x == ch or (x.isascii() and ch.isascii() and x.lower() == ch.lower())]
+        return conj(None, [disj([self._is(c, x) for x in fold(ch)]) for c, ch in zip(self.chars, text)])
+
+
+@contract(r'^<(?:String|str) as Index<Range(From|To|Full|)<usize>>>::index$')
+def str_index_range(e, args, fr, m):
+    """&s[a..], &s[..b], &s[a..b] by BYTE offsets: panics unless the offsets are character boundaries within the string"""
+    s_ = e.load(args[0])
+    rng = e.force(args[1])
+    kind = m.group(1)
+    names = {'From': ['start'], 'To': ['end'], '': ['start', 'end'], 'Full': []}[kind]
+    vals = dict(zip(names, [e.force(f) for f in rng.fields]))
+    if s_.concrete and all(v.concrete for v in vals.values()):
+        raw = s_.v.encode('utf-8')
+        a, b = vals.get('start', Int(0, 'usize')).v, vals.get('end', Int(len(raw), 'usize')).v
+        ok_ = a <= b <= len(raw)
+        try:
+            if not ok_:
+                raise UnicodeDecodeError('utf-8', b'', 0, 1, '')
+            raw[:a].decode('utf-8'); raw[b:].decode('utf-8')
+            return Str(raw[a:b].decode('utf-8'))
+        except UnicodeDecodeError:
+            raise Panic('byte index %d is out of bounds or not a char boundary of `%s`' % (a if a > len(raw) or not ok_ else b, s_.v))
+    if isinstance(s_, NameStr):
+        bounds = s_.boundaries()
+        n = len(s_.chars)
+
+        def pick(v, what):
+            if v is None:
+                return None
+            conds = [v.z() == bnd for bnd in bounds] + [None]
+            k = e.decide(len(conds), [c for c in conds[:-1]] + [z3.And(*[v.z() != bnd for bnd in bounds])], 'byte offset of a string slice')
+            if k == n + 1:
+                raise Panic('%s byte index is not a char boundary or out of bounds of the file name' % what)
+            return k
+        a = pick(vals.get('start'), 'start')
+        b = pick(vals.get('end'), 'end')
+        a = 0 if a is None else a
+        b = n if b is None else b
+        if a > b:
+            raise Panic('slice index starts at %d but ends at %d' % (a, b))
+        return NameStr(s_.chars[a:b])
+    raise Unsupported('byte-range slice of a symbolic string')
+
+
+@contract(r'^(?:mem::)?swap::<.*>$')
+def mem_swap(e, args, fr, m):
+    a, b = e.load(args[0]), e.load(args[1])
+    e.store(args[0], b)
+    e.store(args[1], a)
+    return UNIT
+
+
+@contract(r'^(?:mem::)?replace::<.*>$')
+def mem_replace(e, args, fr, m):
+    old = e.load(args[0])
+    e.store(args[0], args[1])
+    return old
+
+
+@contract(r'^(?:mem::)?take::<(.*)>$')
+def mem_take(e, args, fr, m):
+    old = e.load(args[0])
+    ty = m.group(1)
+    if ty.startswith('Vec<'):
+        new = VecV(())
+    elif ty == 'String':
+        new = Str('')
+    elif ty.startswith('Option<'):
+        new = NONE
+    elif ty.startswith('HashSet<') or ty.startswith('BTreeSet<'):
+        new = SetV((), 'btree' if ty.startswith('BTree') else 'hash')
+    elif ty.startswith('HashMap<') or ty.startswith('BTreeMap<'):
+        new = MapV(())
+    elif ty in INT_TYPES:
+        new = Int(0, ty)
+    elif ty == 'bool':
+        new = False
+    else:
+        raise Unsupported('mem::take of ' + ty)
+    e.store(args[0], new)
+    return old
+
+
+@contract(r'^<impl str>::eq_ignore_ascii_case$')
+def str_eq_ignore_ascii_case(e, args, fr, m):
+    a, b = e.load(args[0]), e.load(args[1])
+    if a.concrete and b.concrete:
+        fold = lambda t: ''.join(c.lower() if c.isascii() else c for c in t)
+        return fold(a.v) == fold(b.v)
+    if isinstance(a, NameStr) and b.concrete:
+        return a.eq_ignore_ascii_case(b.v)
+    if isinstance(b, NameStr) and a.concrete:
+        return b.eq_ignore_ascii_case(a.v)
+    raise Unsupported('eq_ignore_ascii_case of symbolic strings')
+
+
+@contract(r'^<impl str>::is_char_boundary$')
+def str_is_char_boundary(e, args, fr, m):
+    s_, i = e.load(args[0]), e.force(args[1])
+    if s_.concrete and i.concrete:
+        raw = s_.v.encode('utf-8')
+        return i.v == len(raw) or (i.v < len(raw) and (raw[i.v] & 0xC0) != 0x80)
+    if isinstance(s_, NameStr):
+        return disj([i.z() == bnd for bnd in s_.boundaries()])
+    raise Unsupported('is_char_boundary of a symbolic string')
 
 
 @contract(r'^<impl str>::chars$')
